@@ -342,14 +342,19 @@ static void ComputeMacroStrings(PInputTag Tag) {
     /* recompute 'all string' parameter */
 
     if (Tag->UsesAllArgs) {
+        LongInt z = 0;
+
+        /* the arguments still there, empty ones included: what ARGCOUNT counts */
+
         Tag->AllArgs[0] = '\0';
         Lauf            = Tag->Params;
-        while (Lauf) {
-            if (Tag->AllArgs[0] != '\0') {
+        while (Lauf && (z < Tag->ParZ)) {
+            if (z > 0) {
                 strmaxcat(Tag->AllArgs, ",", STRINGSIZE);
             }
             strmaxcat(Tag->AllArgs, Lauf->Content, STRINGSIZE);
             Lauf = Lauf->Next;
+            z++;
         }
     }
 }
